@@ -1,3 +1,5 @@
 INIT Init
 NEXT Next
-CONSTANT MaxFragments = 3
+CONSTANTS
+  MaxFragments = 3
+  MaxPatternFragments = 2
